@@ -119,10 +119,26 @@ func TestC09(t *testing.T) {
 
 		// target address state
 		var target sdk.AccAddress
-		tk := rapid.IntRange(0, 9).Draw(t, "targetState")
+		tk := rapid.IntRange(0, 10).Draw(t, "targetState")
 		targetKinds := []string{"absent", "base_no_key", "base_with_key_and_sequence", "continuous_vesting", "module_account", "vesting_sender_itself",
-			"periodic_vesting", "delayed_vesting", "permanent_locked", "base_with_key_without_funds"}
+			"periodic_vesting", "delayed_vesting", "permanent_locked", "base_with_key_without_funds", "continuous_vesting_finished"}
 		switch tk {
+		case 10:
+			// a continuous vesting account whose schedule is over (it may have delegated and fully unbonded meanwhile):
+			// it has signed transactions, its record must stay as it is
+			target = v.NextFresh()
+			end := nowS - int64(rapid.IntRange(1, 100000).Draw(t, "finishedFor"))
+			makeCVA(v, target, sdk.NewCoins(sdk.NewInt64Coin(Denom, 4242)), end-5000, end, sdk.NewCoins())
+			if rapid.Bool().Draw(t, "finishedHadDelegation") {
+				v.Delegate(target, sdk.NewInt(100))
+				v.Undelegate(target, sdk.NewInt(100))
+				v.CompleteUnbondings()
+				nowS = nsTime(v.NowNs).Unix()
+			}
+			acc := v.App.AccountKeeper.GetAccount(v.Ctx, target)
+			_ = acc.SetPubKey(FreshAcc(v.fresh).Priv.PubKey())
+			_ = acc.SetSequence(uint64(rapid.IntRange(1, 50).Draw(t, "finishedSeq")))
+			v.App.AccountKeeper.SetAccount(v.Ctx, acc)
 		case 0:
 			target = v.NextFresh()
 		case 1:
